@@ -67,6 +67,7 @@ fn main() {
         "sharedfile" => sharedfile::main(rest),
         "rolling" => rolling::main(rest),
         "fixedwindow" => fixedwindow::main(rest),
+        "fixedwindow-cwd-child" => fixedwindow::cwd_child(rest),
         "levelgate" => levelgate::main(rest),
         other => {
             eprintln!("unknown command {}", other);
